@@ -755,6 +755,14 @@ fn container_spellings(tr: Tr) -> Vec<Occ> {
         Tr::Variant => occ("supports", "supports(unit, bogus)", true),
         _ => occ("supports", "supports(struct_named, bogus_word)", true),
     });
+    // items that are no shape word at all: name-value, literal, list, multi-segment path
+    v.push(occ("supports", "supports(bogus = 1)", true));
+    v.push(occ("supports", "supports(\"bogus\")", true));
+    v.push(occ("supports", "supports(bogus(x))", true));
+    v.push(match tr {
+        Tr::Variant => occ("supports", "supports(unit::bogus)", true),
+        _ => occ("supports", "supports(struct_named::bogus)", true),
+    });
     v
 }
 
